@@ -104,6 +104,8 @@ def main():
                 continue
             demo = os.path.join(dst, sorted(demos)[0])
             cmds = demo_commands(demo)
+            if os.path.exists(os.path.join(dst, 'cmds.txt')):     # explicit command list overrides the header-comment heuristics
+                cmds = [l.strip() for l in open(os.path.join(dst, 'cmds.txt')) if l.strip() and not l.startswith('#')]
             r['cmds'] = cmds
             # clean
             sh('git checkout -- . ', cwd=WT)
